@@ -80,9 +80,7 @@ theorem objectPre_ok (f : Nat) (blk : List Step) (h : BlockOK f blk) (fl : Fault
   unfold objectPre at hst
   rcases List.mem_cons.mp hst with rfl | hin
   · simp [okFor]
-  · rcases List.mem_cons.mp (mem_cut hin) with rfl | hb
-    · rfl
-    · exact h st hb
+  · exact h st (mem_cut hin)
 
 /-- after the clean-up the state is the initial one -/
 theorem cleanup_state (s0 s1 : St) (f : Nat) (hf : f ∉ s0.tmp) (ho : others f s1 = others f s0) :
@@ -135,13 +133,13 @@ theorem faultOf_raised (r : Bool) (blk : List Step) : (faultOf r blk).raised = r
   cases r <;> simp [faultOf, Fault.raised]
 
 theorem objectPre_faultOf (f : Nat) (blk : List Step) (r : Bool) :
-    objectPre f blk (faultOf r blk) = Step.mkTemp f :: Step.writeTemp f :: blk := by
+    objectPre f blk (faultOf r blk) = Step.mkTemp f :: blk := by
   cases r <;> simp [objectPre, faultOf, cut, List.take_of_length_le]
 
 theorem objectTrace_faultOf (s0 : St) (f : Nat) (blk : List Step) (r : Bool) :
     objectTrace s0 f blk (faultOf r blk) =
-      (Step.mkTemp f :: Step.writeTemp f :: blk) ++
-        cleanup ((Step.mkTemp f :: Step.writeTemp f :: blk).foldl apply s0) f := by
+      (Step.mkTemp f :: blk) ++
+        cleanup ((Step.mkTemp f :: blk).foldl apply s0) f := by
   have hp := objectPre_faultOf f blk r
   cases r with
   | false =>
@@ -158,7 +156,7 @@ theorem objectTrace_faultOf (s0 : St) (f : Nat) (blk : List Step) (r : Bool) :
 
 theorem candA_sound (s0 : St) (f : Nat) (rest : List Step) (r : Bool) (f₁ : Nat) (blk : List Step) (fl : Fault)
     (h : candA s0 f rest r = some (f₁, blk, fl)) :
-    f₁ = f ∧ BlockOK f blk ∧ objectTrace s0 f blk fl = Step.mkTemp f :: Step.writeTemp f :: rest ∧ fl.raised = r := by
+    f₁ = f ∧ BlockOK f blk ∧ objectTrace s0 f blk fl = Step.mkTemp f :: rest ∧ fl.raised = r := by
   unfold candA at h
   split at h
   · rename_i g hlast
@@ -183,7 +181,7 @@ theorem candA_sound (s0 : St) (f : Nat) (rest : List Step) (r : Bool) (f₁ : Na
 
 theorem candB_sound (s0 : St) (f : Nat) (rest : List Step) (r : Bool) (f₁ : Nat) (blk : List Step) (fl : Fault)
     (h : candB s0 f rest r = some (f₁, blk, fl)) :
-    f₁ = f ∧ BlockOK f blk ∧ objectTrace s0 f blk fl = Step.mkTemp f :: Step.writeTemp f :: rest ∧ fl.raised = r := by
+    f₁ = f ∧ BlockOK f blk ∧ objectTrace s0 f blk fl = Step.mkTemp f :: rest ∧ fl.raised = r := by
   unfold candB at h
   split at h
   · rename_i hc
@@ -211,21 +209,17 @@ theorem matchObject_sound (s0 : St) (tr : List Step) (r : Bool) (f : Nat) (blk :
       subst h1; subst h2; subst h3
       exact ⟨fun _ hst => by simp at hst, rfl, by simp [Fault.raised, hr]⟩
     · simp at h
-  · rename_i f0 f' rest
+  · rename_i f' rest
     split at h
-    · rename_i hff
-      subst hff
-      split at h
-      · rename_i res hA
-        simp only [Option.some.injEq] at h
-        subst h
-        obtain ⟨h1, h2, h3, h4⟩ := candA_sound s0 f' rest r f blk fl hA
-        subst h1
-        exact ⟨h2, h3, h4⟩
-      · obtain ⟨h1, h2, h3, h4⟩ := candB_sound s0 f' rest r f blk fl h
-        subst h1
-        exact ⟨h2, h3, h4⟩
-    · simp at h
+    · rename_i res hA
+      simp only [Option.some.injEq] at h
+      subst h
+      obtain ⟨h1, h2, h3, h4⟩ := candA_sound s0 f' rest r f blk fl hA
+      subst h1
+      exact ⟨h2, h3, h4⟩
+    · obtain ⟨h1, h2, h3, h4⟩ := candB_sound s0 f' rest r f blk fl h
+      subst h1
+      exact ⟨h2, h3, h4⟩
   · simp at h
 
 theorem matchFile_sound (tr : List Step) (r : Bool) (inner : List Step) (fl : Fault)
